@@ -89,7 +89,7 @@ def must_reject(lines):
                     not (k + 1 < len(toks) and toks[k + 1] == ':'):
                 out.append((f'line {i}: label reference {t} := undefined name', lines[:i] + [''.join(toks[:k] + ['undefined_q'] + toks[k + 1:])] + lines[i + 1:]))
             if t in ('nop', 'hlt0') and line.strip() == t:
-                for extra in ('5', 'a', 'val', '[5]', 'val, 5'):
+                for extra in ('5', 'a', 'val', '[5]', 'val, 5', ',', ', ,'):
                     out.append((f'line {i}: operand {extra!r} after {t}, which takes none', lines[:i] + [f'    {t} {extra}'] + lines[i + 1:]))
             if t in ('nop', 'ldi', 'brr', 'jmp', 'push', 'ldm', 'sel', 'n12', 'n4', 'mac', 'hlt0', 'brc', 'lds', 'brn'):
                 out.append((f'line {i}: mnemonic {t} := unknown word', lines[:i] + [''.join(toks[:k] + ['qqq'] + toks[k + 1:])] + lines[i + 1:]))
@@ -97,6 +97,11 @@ def must_reject(lines):
         if m:
             bad = {'ldi': 'a, [5]', 'push': '5', 'ldm': 'a', 'sel': 'nokey_', 'n12': '[3]', 'n4': '[1]', 'brr': '[[1]]', 'jmp': 'a', 'brn': '[a]'}[m.group(2)]
             out.append((f'line {i}: operands no variant accepts', lines[:i] + [f'{m.group(1)}{m.group(2)} {bad}'] + lines[i + 1:]))
+            # an empty operand slot (stray comma): the statement has an operand no variant accepts
+            ops = m.group(3)
+            strays = [ops + ',', ', ' + ops, ops.replace(',', ',,', 1) if ',' in ops else ops + ', ,']
+            for st in strays:
+                out.append((f'line {i}: stray comma in the operands ({st.strip()!r})', lines[:i] + [f'{m.group(1)}{m.group(2)} {st}'] + lines[i + 1:]))
             # values just outside the signed-or-unsigned range of the field: 2^w, 2^w + 1, -2^(w-1) - 1, -(2^w - 1)
             bigs = {'ldi': ['a, 256', 'a, -129', 'a, -255'], 'n12': ['256', '-129', '257'], 'n4': ['16', '-9', '-15', '17'],
                     'ldm': ['[65536]', '[-32769]'], 'jmp': ['65536'],
